@@ -160,14 +160,16 @@ const (
 	famBody      = "right-cookie-altered-body"
 	famExact     = "exact"
 	famResumeKnw = "resume-known-session"
+	famNotHello  = "not-a-clienthello"
 )
 
 // second is what the attacker sends after the cookie request.
 type second struct {
-	None   bool
-	Raw    [][]byte // verbatim datagrams (same bytes at every repetition)
-	H      *hello   // otherwise: this hello, framed freshly at every repetition
-	MsgSeq uint16
+	None     bool
+	NotHello bool     // Raw is not (part of) a ClientHello: it may elicit alerts at most, never a cookie request
+	Raw      [][]byte // verbatim datagrams (same bytes at every repetition)
+	H        *hello   // otherwise: this hello, framed freshly at every repetition
+	MsgSeq   uint16
 }
 
 type variant struct {
@@ -275,6 +277,25 @@ func buildVariants(g *genuine, v13 bool) []variant {
 	body("ext-unknown-appended", func(h *hello) { h.Exts = append(h.Exts, ext{Type: 0xffa5, Data: []byte{1, 2, 3}}) })
 	if !v13 {
 		body("ext-block-removed", func(h *hello) { h.HasExts, h.Exts = false, nil })
+	}
+	// datagrams that are not ClientHellos: a cookie request is "sent only in direct response to a ClientHello"
+	rec := func(typ byte, seq uint64, body []byte) []byte {
+		return append([]byte{typ, 0xfe, 0xfd, 0, 0, byte(seq >> 40), byte(seq >> 32), byte(seq >> 24), byte(seq >> 16), byte(seq >> 8), byte(seq), byte(len(body) >> 8), byte(len(body))}, body...)
+	}
+	oneRN := append([]byte{0, 16}, make([]byte, 16)...)
+	nonHello := map[string][]byte{
+		"ack-empty":              rec(26, 900, []byte{0, 0}),
+		"ack-one-record":         rec(26, 901, oneRN),
+		"alert-warning":          rec(21, 902, []byte{1, 0}),
+		"ccs":                    rec(20, 903, []byte{1}),
+		"unknown-content-type":   rec(99, 904, []byte{1, 2, 3}),
+		"handshake-finished":     rec(22, 905, append([]byte{20, 0, 0, 12, 0, 1, 0, 0, 0, 0, 0, 12}, make([]byte, 12)...)),
+		"handshake-hellorequest": rec(22, 906, []byte{0, 0, 0, 0, 0, 1, 0, 0, 0, 0, 0, 0}),
+		"one-byte":               {0x16},
+	}
+	for _, name := range world.SortedKeys(nonHello) {
+		d := nonHello[name]
+		add("nothello-"+name, famNotHello, "", func(*genuine, []byte) second { return second{NotHello: true, Raw: [][]byte{d}} })
 	}
 	add("exact", famExact, "", func(g *genuine, _ []byte) second { return second{H: g.H2.clone(), MsgSeq: 1} })
 	return vs
@@ -476,6 +497,8 @@ type runner struct {
 	react  []string
 	tr     world.Tracer
 	tsteps int
+	// notHello: the datagrams of the current "second" are not ClientHello datagrams
+	notHello bool
 }
 
 // newServerEmissions returns what the server emitted since the last call and clears the network.
@@ -503,7 +526,7 @@ func (r *runner) visit(ev string) {
 // of the ClientHello this datagram completes (nil if it is not the last fragment).
 func (r *runner) deliver(tag string, d []byte, elicit int, completes []byte, second bool) {
 	ok := r.w.Push(world.ClientAddr, world.ServerAddr, d)
-	if ok {
+	if ok && !r.notHello {
 		r.orc.chDgrams++
 	}
 	was := r.orc.exact
@@ -800,6 +823,7 @@ func runExec(t *testing.T, p *world.PKI, c execCase, seed uint64, ref *genuine) 
 			return
 		}
 		sec := c.V.Build(g, stale)
+		r.notHello = sec.NotHello
 		recSeq := uint64(len(g.CH1))
 		r.sleep("pre", c.T.Pre)
 		if !sec.None {
@@ -830,7 +854,9 @@ func runExec(t *testing.T, p *world.PKI, c execCase, seed uint64, ref *genuine) 
 					if r.orc.kind != "" {
 						break
 					}
-					elicit += len(d)
+					if !sec.NotHello {
+						elicit += len(d)
+					}
 					var completes []byte
 					if i == len(dg)-1 {
 						completes = body
@@ -1007,6 +1033,9 @@ func TestC13(t *testing.T) {
 				}
 				if v.Family == famNone {
 					nd = 0
+				}
+				if v.Family == famNotHello {
+					nd = rp
 				}
 				for _, tp := range placements(thorough, nd > 1) {
 					c := execCase{P: prof, V: v, Reps: rp, T: tp}
